@@ -336,6 +336,10 @@ func (fs *memFS) RemoveAll(ctx context.Context, name string) error {
 
 	dir, frag, err := fs.find("remove", name)
 	if err != nil {
+		if os.IsNotExist(err) {
+			// As for os.RemoveAll, a path that does not exist is not an error.
+			return nil
+		}
 		return err
 	}
 	if dir == nil {
